@@ -261,8 +261,13 @@ class Ctx:
         """kind: impl-counterexample | correspondence-broken | proof-broken"""
         self.violations.append((kind, what, replay))
 
-    def known(self, fid, what):
-        self.known_hits[fid] = what
+    def known(self, fid, what, replay=None):
+        """a failure that KNOWN_FINDINGS.json lists (by id) is reported as KNOWN-FINDING; an unlisted one is a violation"""
+        listed = {k.get('id'): k for k in known_findings(self.prop)}
+        if fid in listed:
+            self.known_hits[fid] = listed[fid].get('what', what)
+        else:
+            self.violation('impl-counterexample', what, replay or {'finding': fid})
 
     # -- finishing
     def finish(self):
